@@ -316,7 +316,7 @@ class TypedNode(Node):
         else:
             children.insert(insert_pos, node)
 
-        if deep and source_node:
+        if deep and source_node is not None:
             # `node` may have been added inside the branch of `source_node`:
             # pass it, so the new copy is not copied into itself recursively.
             node._add_from(source_node, _skip=node)
